@@ -245,7 +245,7 @@ impl File {
                 }
                 ast::Root::LigTable(b) => {
                     for node in b.children {
-                        let mut insert_lig_kern_instruction = |instruction, span| {
+                        let mut insert_lig_kern_instruction = |instruction, span: std::ops::Range<usize>| {
                             if file.lig_kern_program.instructions.len()
                                 < MAX_LIG_KERN_INSTRUCTIONS as usize
                             {
@@ -253,8 +253,8 @@ impl File {
                             } else {
                                 // TODO: add a test for this case
                                 errors.push(error::ParseWarning {
+                                    knuth_pltotf_offset: Some(span.end),
                                     span,
-                                    knuth_pltotf_offset: None,
                                     kind: ParseWarningKind::LigTableIsTooBig,
                                 });
                             }
